@@ -1,8 +1,15 @@
 #!/bin/sh
 # usage: check.sh <property id> [quick|thorough]
 # Rebuilds the analyser when its sources changed, then analyses /repo's current
-# working tree (nothing under /repo is executed).  Exit 0 = property's structural
-# obligations hold, 1 = VIOLATION line printed, 2 = no verdict (broken check).
+# working tree (nothing under /repo is executed).  Exit 0 = the property's
+# structural obligations hold, 1 = VIOLATION line printed, 2 = no verdict (broken check).
+#
+# quick    : the analysis of the working tree (default build).
+# thorough : the analysis on three variants of the program (default, GOARCH=386,
+#            with test files) which must agree, plus the sensitivity self-test: every
+#            variant of /verif/variants and every kept seeded change for this property
+#            is applied to a scratch copy of the working tree (outside /repo and
+#            /verif, deleted afterwards) and must be reported by the analysis.
 set -u
 cd /verif || exit 2
 # GOSUMDB=off / GOTOOLCHAIN=local would break the offline switch to the go1.24.2
@@ -10,6 +17,8 @@ cd /verif || exit 2
 unset GOSUMDB GOTOOLCHAIN GONOSUMDB GONOSUMCHECK GOWORK GOARCH GOOS
 export GOPROXY=off
 BIN=/verif/bin/cqlverif
+ID="$1"
+TIER="${2:-${VERIF_TIER:-quick}}"
 need=0
 [ -x "$BIN" ] || need=1
 if [ $need -eq 0 ] && [ -n "$(find /verif/checker -newer "$BIN" \( -name '*.go' -o -name go.mod -o -name go.sum \) 2>/dev/null | head -1)" ]; then need=1; fi
@@ -17,4 +26,44 @@ if [ $need -eq 1 ]; then
   mkdir -p /verif/bin
   (cd /verif/checker && GOFLAGS=-mod=mod go build -o "$BIN" .) || { echo "NO-VERDICT: analyser build failed" >&2; exit 2; }
 fi
-exec "$BIN" -p "$1" -tier "${2:-${VERIF_TIER:-quick}}" -repo /repo -verif /verif
+if [ "$TIER" != "thorough" ]; then
+  exec "$BIN" -p "$ID" -tier quick -repo /repo -verif /verif
+fi
+mkdir -p /verif/.cache
+ST=/verif/.cache/selftest_$ID.json
+rm -f "$ST"
+"$BIN" -p "$ID" -tier thorough -repo /repo -verif /verif -selftest /nonexistent > /verif/.cache/thorough_$ID.out 2>&1
+rc=$?
+if [ $rc -ne 0 ]; then
+  # a violation (or a broken analysis) on the working tree: report it as is, the self-test
+  # is meaningless on a tree that already violates the property
+  cat /verif/.cache/thorough_$ID.out
+  exit $rc
+fi
+python3 /verif/tools/selftest.py -p "$ID" --seeded -j 8 --json "$ST" > /verif/.cache/selftest_$ID.out 2>&1
+src=$?
+# negative controls: behaviour-preserving refactorings must stay silent
+RT=/verif/.cache/refactor_$ID.json
+python3 /verif/tools/refactor_test.py -p "$ID" -j 8 --json "$RT" > /verif/.cache/refactor_$ID.out 2>&1
+rrc=$?
+python3 - "$ST" "$RT" <<'PY'
+import json,sys
+st=json.load(open(sys.argv[1])); rt=json.load(open(sys.argv[2]))
+st["negative_controls"]=rt["summary"]; st["negative_control_results"]=[r for r in rt["results"] if r[2]!="silent-ok"]
+json.dump(st,open(sys.argv[1],"w"),indent=1)
+PY
+"$BIN" -p "$ID" -tier thorough -repo /repo -verif /verif -selftest "$ST"
+rc=$?
+tail -1 /verif/.cache/selftest_$ID.out
+tail -1 /verif/.cache/refactor_$ID.out
+if [ $rc -eq 0 ] && [ $rrc -ne 0 ]; then
+  grep -E "FALSE-ALARM|BROKEN" /verif/.cache/refactor_$ID.out
+  echo "NO-VERDICT property=$ID: a behaviour-preserving refactoring raises an alarm: the check is broken, not the property" >&2
+  exit 2
+fi
+if [ $rc -eq 0 ] && [ $src -ne 0 ]; then
+  grep -E "^(MISSED|FALSE-ALARM|error)" /verif/.cache/selftest_$ID.out
+  echo "NO-VERDICT property=$ID: the sensitivity self-test failed (a variant that must be reported was missed, or a silent control raised an alarm): the check is broken, not the property" >&2
+  exit 2
+fi
+exit $rc
